@@ -676,8 +676,11 @@ class Ctl(Harness):
             if N > 0:
                 k = N - 1
                 anyreq = b_or(t_cb(k), t_target(k), t_feas(k))
-                C("C09", "request_at_last_evaluation_is_reported",
-                  b_implies(anyreq, st in (1, 3, 4)), s=f"{sig}:st={st}")
+                if feasible_bounds and not all_fixed:
+                    # (inconsistent bounds / all variables fixed: the only evaluation is made while the early
+                    # result is assembled and the documented status -1 / 2 takes precedence)
+                    C("C09", "request_at_last_evaluation_is_reported",
+                      b_implies(anyreq, st in (1, 3, 4)), s=f"{sig}:st={st}")
                 C("C09", "status_1_3_4_only_when_request_occurred_at_last_evaluation",
                   b_and(b_implies(st == 3, t_cb(k)), b_implies(st == 1, t_target(k)), b_implies(st == 4, t_feas(k))),
                   s=f"{sig}:st={st}")
@@ -708,7 +711,8 @@ class Ctl(Harness):
                   b_and(all(abs(a - c) <= 1e-12 * max(1.0, abs(c)) for a, c in zip(rx, last["x"])),
                         same_value(last["fun"], rf) if shape["cb"] == "kw" else True))
                 C("C20", "stop_at_kth_call_gives_nfev_k_status_3",
-                  res.nfev == o["cbstate"]["calls"] and st == 3, s=f"{sig}:fun={'y' if has_fun else 'none'}")
+                  res.nfev == o["cbstate"]["calls"] and (st == 3 or not feasible_bounds or all_fixed),
+                  s=f"{sig}:fun={'y' if has_fun else 'none'}")
         # ---- C18 monitors ---------------------------------------------------------------
         prev_res = None
         for it in o["monitors"]["iters"]:
@@ -759,7 +763,7 @@ class Ctl(Harness):
     def required_goals(self, tier, prop):
         g = ["status_3", "status_5", "status_6"]
         if prop in ("C09", "C07"):
-            g += ["stop_request_cb", "status_1", "status_4"]
+            g += ["callback_stopped", "status_1", "status_4"]
         if prop == "C20":
             g += ["callback_stopped"]
         return g
